@@ -53,18 +53,18 @@ THEOREM_CLASSES = {
     "C15_ref_never_out_of_fuel": "corollary",
     "C15_tgt_never_out_of_fuel": "corollary",
     "C15_visit_close_any_order": "corollary",
+    "C15_in_goto_placement": "corollary",
 }
 UNPROVED = [
     "`accepted` = what the analyzer accepts of the mini-language: not a theorem; tied by the accepted-vs-`nelua --analyze` stream (programs with exits placed anywhere) and 6 must-reject probes",
-    "several returned values (`_mulret` path of visitors.Return): not in the model; exercised by the printer's two-value return mode (trace + tokens), testing only",
-    "the `goto _doexprlabel` omission rule (needgoto): texec ignores the flag, so the main theorem is insensitive to it; tied by the scraped fact, the token comparison and the run-time traces (seeded change C15-C is caught that way)",
+    "the `goto _doexprlabel` omission rule (needgoto): texec treats both forms of `in` alike, so the main theorem is semantically insensitive to it; what is proved is the syntactic half (C15_in_goto_placement: a goto-less `in` is always the last statement of its do-expression block, with the model's rule taken from the scraped visitors.In) - a change of the rule breaks that proof, the token comparison and the run-time traces",
     "visit_close position bookkeeping: proved order-independent on a separate list model (C15_visit_close_any_order), linked to the code by a regex fact and the correspondence, not to `desugar_block`",
     "the reference semantics is the specification by construction; independent voice only for the Lua-expressible subset (<close>, no defer/continue/switch/do-expression) run by the bundled Lua 5.4",
     "`for ... in`, recursion, goto, polymorphic/generic function bodies, `require`d files: not generated; main-chunk programs compared by trace only",
     "deferred blocks containing an early `in` or a break inside a switch are not generated (duplicate C labels when emitted twice: C03 matter)",
 ]
 MANIFEST_ENTRY = {
-    "text": "proof, partial: Coq theorem for ALL programs of the mini-language (do/if/while/repeat/for/switch+fallthrough/function/do-expression, defers nested in defers, <close> declarations, every exit kind, any depth) that the analyzer's placement rules accept and ALL condition oracles: the generator's statically stitched clean-up produces exactly the trace and returned value of the reference semantics (each executed defer once, innermost first, after the returned value, `until` before the body's defers); corollaries LIFO / once / never, Fuel unreachable, visit_close order-independent. Rest on differential testing only: that `accepted` is the analyzer's acceptance, multi-value returns, the goto-omission rule of `in`, polymorphic/required code.",
+    "text": "proof, partial: Coq theorem for ALL programs of the mini-language (do/if/while/repeat/for/switch+fallthrough/function/do-expression, defers nested in defers, <close> declarations, every exit kind, any depth) that the analyzer's placement rules accept and ALL condition oracles: the generator's statically stitched clean-up produces exactly the trace and returned value of the reference semantics (each executed defer once, innermost first, after the returned value, `until` before the body's defers); corollaries LIFO / once / never, Fuel unreachable, visit_close order-independent. Multi-value returns (the _mulret temporary) are inside the theorem. Rest on differential testing only: that `accepted` is the analyzer's acceptance, the semantic effect of the goto-omission rule of `in` (its placement is a theorem), polymorphic/required code.",
     "note": "trusted: Coq 8.16.1 kernel; the hand-written model of cgenerator.lua's stitching tied to /repo by token-by-token comparison with the emitted C, run-time traces, Lua 5.4 as a third voice on the <close> subset and regex facts in Gen.v (tripwire) - all testing; abstraction of C temporaries (_ret/_expr/_repeat_stop) into compound target statements; extraction (ExtrOcamlBasic), OCaml driver, Python generator/printer/tokenizer, gcc; no cross-property files",
     "technique": "machine-checked proof in Coq over an executable model + extracted-model/implementation correspondence",
 }
@@ -189,6 +189,7 @@ def from_json(x):
         if t == 'repeat': return ('repeat', block(s[1]), s[2])
         if t == 'switch': return ('switch', s[1], [(block(b), bool(ft)) for b, ft in s[2]], block(s[3]))
         if t == 'call': return ('call', bool(s[1]), block(s[2]))
+        if t == 'return': return ('return', list(s[1]) if isinstance(s[1], list) else s[1])
         return tuple(s)
     return block(x)
 
@@ -447,7 +448,8 @@ def correspond(ctx):
 
     def ctoks_of(fi, ti, void):
         try:
-            return norm_tokens(" ".join(([] if void else ["V"]) + ["call("] + c15gen.c_tokens("zt%d" % ti, builds[fi]["funcs"], 0, builds[fi]["pairs"]) + [")"]))
+            nv = 0 if void else max(1, c15gen.ret_arity(files[fi][ti][1]))
+            return norm_tokens(" ".join(["V"] * nv + ["call("] + c15gen.c_tokens("zt%d" % ti, builds[fi]["funcs"], 0, builds[fi]["pairs"]) + [")"]))
         except Exception as exn:  # noqa
             return "!tokenizer: %s" % exn
 
